@@ -24,6 +24,13 @@ binding half: no repository hook.  harness/pipesdrv hands the pipes package an
                  and free-running bursts (no gate, random rhythm).
 A VIOLATION is reported only when a formula is false on values the real machines
 produced; an expired wait with gates still parked is exit 2.
+
+Violations are grouped by (bind, flat, local, cause, formula); the signature of a
+class carries `cause` (overtake | remove-shortcut | queue-dedupe | flat-stale-check |
+bindany-superset-skip | inline-call-on-nonlocal-target | stranded-queue | unknown),
+measured from the recorded trace, so that a known-findings entry can be keyed by
+the mechanism: {"cause": "overtake"} etc.  Anything the trace does not explain by
+one of these mechanisms is "unknown" and is never masked.
 """
 import concurrent.futures as cf
 import glob, json, os, random, re, shutil, sys, time
@@ -36,7 +43,7 @@ from common import *
 PROP = "C18"
 
 # flags that describe pipes.go / machine.go at the pinned commit (permissive variant)
-CODE = dict(ForwardInOrder=False, AnyExact=False, Dedupe=True, DedupeCounter=False,
+CODE = dict(ForwardInOrder=False, AnyExact=True, Dedupe=True, DedupeCounter=False,
             RemoveShortcut=True, FlatFresh=False, AnyForkRemote=False)
 # every repair applied (strict variant): the formulas hold on the model
 REP = dict(ForwardInOrder=True, AnyExact=True, Dedupe=True, DedupeCounter=True,
@@ -99,6 +106,12 @@ CONFIGS = {
 }
 
 
+def verify_bound(c, tier):
+    """Burst bound of the verification runs (all interleavings, hist-free view)."""
+    extra = (1 if c["states"] == "A" else 0) if tier == "quick" else (3 if c["states"] == "A" else 1)
+    return max(c["vmaxsrc"], c["maxsrc"] + extra)
+
+
 def consts_of(c, flags, emit, maxsrc=None):
     return dict(flags, McMode=c["mode"], McStates=SETS[c["states"]], McMulti=SETS[c["multi"]],
                 McFlat=c["flat"], McLocal=c["local"], McSlow=c["slow"], McAddOnly=False,
@@ -119,7 +132,7 @@ def mc_verify(tier, rep):
 
     def one(job):
         c, label, flags = job
-        r = tlcrun.run_tlc("MCPipes", dict(spec="MCSpec", consts=consts_of(c, flags, False, c["vmaxsrc"]),
+        r = tlcrun.run_tlc("MCPipes", dict(spec="MCSpec", consts=consts_of(c, flags, False, verify_bound(c, tier)),
                                            view="MCView", invariants=INVARIANTS),
                            workers=2, timeout=600 if tier == "quick" else 1500, continue_=True)
         return job, r
@@ -132,7 +145,7 @@ def mc_verify(tier, rep):
             if r["timed_out"] or (r["errors"] and not r["violated"]):
                 raise Inconclusive("TLC failed on %s/%s: %s\n%s" % (c["name"], label, r["errors"][:3],
                                                                    r["out"][-2000:]))
-            runs.append(dict(config=c["name"], variant=label, max_src=c["vmaxsrc"],
+            runs.append(dict(config=c["name"], variant=label, max_src=verify_bound(c, tier),
                              states_generated=r["states"], distinct=r["distinct"],
                              violated=sorted(r["violated"]), wall_s=round(r["wall"], 1)))
             states += r["distinct"]
@@ -611,7 +624,7 @@ def check(tier):
             for b in c["binds"]:
                 for i, s_ in enumerate(scheds):
                     cases.append(sched_to_case(c, b, s_, "tlc-%s-%d-%s-%d" % (c["name"], ms, b, i)))
-        nr, nf = (260, 1300) if tier == "quick" else (4000, 20000)
+        nr, nf = (260, 1300) if tier == "quick" else (8000, 40000)
         rcases = rand_cases(rng, nr, True)
         fcases = rand_cases(rng, nf, False)
         by_label = {c["label"]: c for c in cases + rcases + fcases}
@@ -718,8 +731,10 @@ def replay(path):
             name, line, lines = items[0]
             hit += 1
             if hit == 1:
+                # (no "cause" key: a replay reports the reproduction itself, it is
+                # not matched against the known findings)
                 rep.violation(dict(formula=name, bind=cs["bind"], flat=cs["flat"], local=cs["local"],
-                                   cause=cause_of(lines, name), schedule=schedule_of(lines)), obj,
+                                   replay_cause=cause_of(lines, name), schedule=schedule_of(lines)), obj,
                               "%s false again: %s -> %s" % (name, schedule_of(lines), json.dumps(line)))
         rep.coverage.update(evaluations=max(stat["quiet"], 1), distinct_nontrivial=2, rule="replay",
                             samples=[cs["label"]], states=1, transitions=1,
